@@ -52,6 +52,22 @@ def scenarios(draw):
         cand = [g for g in sc["genes"] if not g["id"].endswith("as") and g.get("canon") == "canon"]
         if cand:
             S.add_mirror_strand_clone(src, sc, src.choice(cand))
+    # unannotated loci whose splice sites tie (one intron canonical on '+', one on '-'): only the tails can decide
+    for c in sc["chroms"]:
+        if not src.bool(0.4):
+            continue
+        gend = max([t["exons"][-1][1] for g in sc["genes"] if g["chr"] == c[0] for t in g["transcripts"]] +
+                   [nv["exons"][-1][1] for nv in sc.get("novel", []) if nv["chr"] == c[0]] + [0])
+        chain = S.gen_chain(src, gend + 900, 3, exon_len=(100, 300), intron_len=(200, 800))
+        if chain[-1][1] + 200 > c[1]:
+            c[1] = chain[-1][1] + src.int(300, 900)
+        first = src.choice(["+", "-"])
+        sc["overrides"] += build.splice_overrides(c[0], chain[:2], first)
+        sc["overrides"] += build.splice_overrides(c[0], chain[1:], "-" if first == "+" else "+")
+        mol = src.choice(["+", "-"])
+        for _ in range(src.int(4, 8)):
+            k += 1
+            sc["reads"].append(S.exact_read("t%d" % k, c[0], mol, chain, polya=src.int(20, 32)))
     # reads without strand evidence
     for g, t in S.transcripts_of(sc):
         if src.bool(0.3) and len(t["exons"]) > 1:
@@ -226,7 +242,7 @@ def check_models(res, sc, genome, ctx, case):
                     for rid in support.get(tid, ()):
                         ev.update(tails.get(rid, ""))
                     if ev == {"A"} and t["strand"] == "-" or ev == {"T"} and t["strand"] == "+":
-                        if not level_all and t["gene"].startswith("novel_gene"):
+                        if t["gene"].startswith("novel_gene"):
                             ctx.violation("C18:novel-model-strand-contradicts-polya-evidence",
                                           {"transcript": tid, "strand": t["strand"], "evidence": sorted(ev)}, case)
                         else:
